@@ -30,7 +30,7 @@ PROTO_TRUSTED = ["hashicorp/raft", "NATS delivery semantics as assumed", "Go sch
 PROPS = {
     "C01": dict(
         # Props.GoSegments: the model's segment lookups = the translated bodies of findSegment / findSegmentContains / findSegmentByBaseOffset
-        lean_modules=["Liftbridge.Props.C01", "Liftbridge.Props.Codec", "Liftbridge.Props.GoSegments"],
+        lean_modules=["Liftbridge.Props.C01", "Liftbridge.Props.Codec", "Liftbridge.Props.GoSegments", "Liftbridge.Props.GoAppend"],
         gen_sources=LOG_SOURCES,
         runs=[dict(go_pkg="./server/commitlog", test="TestVerifC01"), dict(go_pkg="./server/commitlog", test="TestVerifC01Codec")],
         level="proof",
@@ -93,7 +93,7 @@ PROPS = {
     "C19": dict(
         lean_modules=["Liftbridge.Props.C19"],
         gen_sources=["server/telemetry/telemetry.go", "server/config.go", "server/server.go"],
-        go_pkg="./server", test="TestVerifC19",
+        runs=[dict(go_pkg="./server", test="TestVerifC19"), dict(go_pkg="./server", test="TestVerifC19LateSwitch")],
         level="proof",
         assumptions=[
             "viper v1.21 lookup order for an AutomaticEnv key: os.LookupEnv(replacer(upper(prefix_key))) (non-empty) before the config file; GetBool = cast.ToBool (strconv.ParseBool, error => false) — modelled, validated by the configuration grid and the env-var-name probe on the real NewConfig",
